@@ -25,7 +25,7 @@ def h_fold_unfold(a: int, b: int, c: int, d: int, e: int, n: int, limit: int) ->
     has at most `limit` octets, is valid UTF-8 on its own, continuation lines start with exactly one
     added space, and the unfold regex restores the line exactly.
 
-    pre: 0 <= n <= N_MAX and 5 <= limit <= 7 and pinned("limit", limit) and pinned("a", a)
+    pre: 0 <= n <= N_MAX and 3 <= limit <= 7 and pinned("limit", limit) and pinned("a", a)
     pre: 0 <= a < 10 and 0 <= b < 10 and 0 <= c < 10 and 0 <= d < 10 and 0 <= e < 10
     post: _
     """
@@ -33,6 +33,8 @@ def h_fold_unfold(a: int, b: int, c: int, d: int, e: int, n: int, limit: int) ->
     a = pin("a", a)
     idx = [a, b, c, d, e][:_c(n, 6)]
     line = "".join(WIDE[_c(i, 10)] for i in idx)
+    if any(len(ch.encode("utf-8")) > limit - 1 for ch in line):
+        return True      # a character wider than limit-1 octets cannot be folded within `limit` at all
     out = foldline(line, limit)
     phys = out.split("\r\n")
     for k, p in enumerate(phys):
@@ -81,3 +83,27 @@ def h_contentline(a: int, b: int, n: int) -> bool:
         return False
     back = Contentlines.from_ical(ical)
     return list(back) == [text, "X:1", ""]
+
+
+def h_handover(p: int, ch: int, tail: int) -> bool:
+    """
+    Real limit: an ASCII run of symbolic length p (0..160) followed by a non-ASCII character and a
+    tail - the hand-over between the all-ASCII prefix and the per-character octet counting at every
+    offset around the 74-character chunk boundaries.
+
+    pre: 0 <= p <= 160 and pinned("chunk", p // 27)
+    pre: 4 <= ch < 10 and 0 <= tail <= 2
+    post: _
+    """
+    pp = _c(p, 161)
+    special = WIDE[_c(ch, 10)]
+    rest = ["", "y" * 80, special * 30][_c(tail, 3)]
+    line = "x" * pp + special + rest
+    out = foldline(line)
+    phys = out.split("\r\n")
+    for k, q in enumerate(phys):
+        if len(q.encode("utf-8")) > 75:
+            return False
+        if k > 0 and not q.startswith(" "):
+            return False
+    return uFOLD.sub("", out) == line
